@@ -104,13 +104,26 @@ record list `R` (`sp.raw ++ fed ++ fut = serAll R`) and stands at a record bound
 has consumed `serAll d` for a prefix `d` of `R`; what it still holds, followed by the bytes not yet
 fed, is `serAll` of the rest. -/
 theorem handover_records {R : List Rec} (hR : ∀ r ∈ R, r.WF) {sp : Str.Parser} (hinv : SInv sp)
+    (hpay : sp.pay = 0) (hpad : sp.pad = 0)
     {ops : List Op} (hl : LegalAll sp ops) {fut : Bytes}
     (hw : sp.raw ++ C05.fedBytes ops ++ fut = serAll R)
     (hb : (applyOps sp ops).isRecordBoundary = true) :
     ∃ d rs, R = d ++ rs ∧ (applyOps sp ops).raw ++ fut = serAll rs ∧
       sp.raw ++ C05.fedBytes ops = serAll d ++ (applyOps sp ops).raw := by
-  have h0 : Pos R sp.raw sp.pay sp.pad (C05.fedBytes ops ++ fut) → True := fun _ => trivial
+  have h0 : Pos R sp.raw sp.pay sp.pad (C05.fedBytes ops ++ fut) := by
+    rw [hpay, hpad]; exact pos_start R (by rw [← List.append_assoc]; exact hw)
+  have h1 := ops_pos hR ops sp fut hinv hl h0
+  have hb' : (applyOps sp ops).pay = 0 ∧ (applyOps sp ops).pad = 0 := by
+    simpa [Str.Parser.isRecordBoundary] using hb
+  rw [hb'.1, hb'.2] at h1
+  obtain ⟨rs, ⟨d, hd⟩, hrs⟩ := pos_boundary h1
   obtain ⟨consumed, hc⟩ := C05.stream_consumes_prefix hinv hl
-  sorry
+  refine ⟨d, rs, hd.symm, hrs, ?_⟩
+  have : consumed ++ serAll rs = serAll d ++ serAll rs := by
+    calc consumed ++ serAll rs = consumed ++ (applyOps sp ops).raw ++ fut := by
+          rw [← hrs, List.append_assoc]
+      _ = serAll R := by rw [← hc, hw]
+      _ = serAll d ++ serAll rs := by rw [← hd, serAll_app]
+  rw [hc, List.append_cancel_right this]
 
 end Fcgi.C05C
